@@ -7,7 +7,7 @@ MAIN, HANDLER, STACK = 0xC1000, 0xC2000, 0xB9000
 TIMER_BITS = 0x03
 
 
-def gen(ctx):
+def gen(ctx, keys=False):
     rng = ctx.rng
     n = 6000 if ctx.tier == "thorough" else 900
     cases = []
@@ -46,7 +46,16 @@ def gen(ctx):
         else:
             ten, mti, sti = 0, 0, 0
         nsteps = rng.randint(12, 40)
-        ev = ",".join(f"{rng.randrange(nsteps)}:onk" for _ in range(rng.choice([0, 0, 1, 2]))) or "-"
+        evs = [f"{rng.randrange(nsteps)}:onk" for _ in range(rng.choice([0, 0, 1, 2]))]
+        if keys and rng.random() < 0.3:
+            # matrix key: strobe all columns first, then press (and perhaps release) a key
+            main = "ccf0ffccf107" + main[:-4] + "13%02x" % (len(main) // 2 + 6)
+            key = rng.choice(["KEY_W", "KEY_R", "KEY_Y", "KEY_I", "KEY_P", "KEY_A", "KEY_Q"])
+            k1 = rng.randrange(nsteps)
+            evs.append(f"{k1}:key{key}")
+            if rng.random() < 0.5:
+                evs.append(f"{rng.randrange(k1, nsteps)}:rel{key}")
+        ev = ",".join(evs) or "-"
         cases.append((imr0, ten, mti, sti, main, handler, nsteps, ev))
     return cases
 
@@ -172,7 +181,7 @@ def run(ctx):
     ctx.assumptions += ["handlers start with a NOP so that a step which delivers and executes the first handler instruction is recognisable on both cores", "BP = 0 so that (BP+0xFB)/(BP+0xFC) address IMR/ISR"]
     ctx.prove(["C12_python_gate_refuted (Props/C12_refuted.v)"])
     _, okr = corr.build_all(ctx, need_model=False)
-    cases = gen(ctx)
+    cases = gen(ctx, keys=True)
     lines = [fmt(c) for c in cases]
     streams = {"py": ("py", "irq")}
     if okr:
